@@ -1049,7 +1049,7 @@ func TestShedHistories(t *testing.T) {
 		rng := c.Rand()
 		path := ""
 		if onDisk {
-			d, err := os.MkdirTemp("", "c19-")
+			d, err := os.MkdirTemp(scratchRoot(), "c19-")
 			if err != nil {
 				t.Fatal(err)
 			}
@@ -1099,4 +1099,14 @@ func min(a, b int) int {
 		return a
 	}
 	return b
+}
+
+// scratchRoot prefers a memory-backed directory for the on-disk stores (the driver fsyncs every
+// write; on a shared disk that dominates the run time). The store still works on real files and
+// is closed and reopened from them.
+func scratchRoot() string {
+	if st, err := os.Stat("/dev/shm"); err == nil && st.IsDir() {
+		return "/dev/shm"
+	}
+	return ""
 }
